@@ -689,7 +689,7 @@ def run(ctx):
         ctx.count("corpus")
         c.pop("_file", None)
         check_case(ctx, c, drv)
-    n = 450 if ctx.tier == "quick" else 9000
+    n = 450 if ctx.tier == "quick" else 14000
     for i in range(n):
         if ctx.time_left() < 0:
             ctx.notes.append("stopped by the time budget after %d of %d cases" % (i, n))
